@@ -96,7 +96,7 @@ def tolerance(cls, t_rel, d_rel, near="surface"):
 
 
 def budget(tier):
-    return {"examples": 2400 if tier == "quick" else 60000, "shrink": False}
+    return {"examples": 2400 if tier == "quick" else 60000, "shrink": False, "shards": 48 if tier == "quick" else 128}
 
 
 @st.composite
